@@ -1,5 +1,5 @@
 PROP = {
-    "thm": ["Umya.Thm.C18", "Umya.Thm.C18Gen", "Umya.Thm.C18Float", "Umya.Thm.C18Display"],
+    "thm": ["Umya.Thm.C18", "Umya.Thm.C18Gen", "Umya.Thm.C18Float", "Umya.Thm.C18Display", "Umya.Thm.C18Syntax"],
     "harness": "c18",
     "level": "proof",
     "stateful": False,
@@ -13,10 +13,18 @@ PROP = {
                   "mul/div plus |eta| <= 2^-1074 in the subnormal range, no overflow below 2^1023, floor/round/ofInt/lt/as-i64 exact): "
                   "C18_serial_float_error (|fl(D + fl(T/86400)) - (D + T/86400)| <= 2958469*2^-53), C18_monotone_float, "
                   "C18_time_float / C18_time_float_near / C18_time_float_1900, C18_convert_epoch_float, C18_roundtrip_float. "
-                  "Display: for a decidable class of format codes (SimpleDateCode: token lists yyyy yy mmm mm m dd d hh h mm(minutes) ss and "
-                  "separators that the modelled replacement tables read the way the tokens mean; 18 codes incl. built-in ids 14 15 16 17 20 21 22 30 45 "
-                  "shown members by kernel evaluation) the text is proved to be, token by token, the field of civilFromDays(day) / of the second "
-                  "(C18_date_display, _float, _convert), by induction over the token list. The model is tied to the code by a differential "
+                  "Display: for a decidable class of format codes (SimpleDateCode: token lists yyyy yy mmmm mmm mm m dddd ddd dd d hh h mm(minutes) ss, "
+                  "the 12-hour tokens h / hh with AM/PM, and separators, that the modelled replacement tables read the way the tokens mean; 27 codes incl. "
+                  "built-in ids 14 15 16 17 18 19 20 21 22 30 45 shown members by kernel evaluation) the text is proved to be, token by token, what Excel's "
+                  "rule says of civilFromDays(day) / of the second: digits, English month and weekday names (weekday from the day number, 1970-01-01 = Thursday), "
+                  "(C18_date_display, _float, _convert; codes without AM/PM), by induction over the token list. With AM/PM: 12-hour clock (0,12 -> 12; 13..23 -> 1..11) "
+                  "and AM before noon proved, but the marker comes out am / pm, not AM / PM (C18_date_display_ampm_partial, _ampm_float_partial, "
+                  "_ampm_convert_partial; refutation of the capital marker C18_ampm_case_fails, replayed by the harness). "
+                  "SYNTACTIC CRITERION: SimpleSyntax (decidable, evaluates no table: cut the list at - , blank; each piece a word of a generated vocabulary "
+                  "= field alone | h:mm | h:mm:ss | mm:ss | 2..3 of year/month/day each once joined by / or by .; 12-hour tokens iff AM/PM present) implies "
+                  "SimpleDateCode for lists of ANY length (C18_simple_syntax_sound): induction over the separators through all 21+2 str::replace passes "
+                  "(C18_replace_split: a pass cannot see across a character its pattern does not contain), the ~180 words per clock mode validated once by "
+                  "kernel evaluation. C18_date_display_syntax / _syntax_ampm_partial state the display for that infinite class. The model is tied to the code by a differential "
                   "check on every run (bit-exact f64 comparison, native IEEE doubles on the Lean side).",
     "level_note": "The float theorems are RELATIVE to StdModel (and, at 1900-01-01T00:00:00 only, ExactRepr = an add/div whose exact result is a "
                   "float returns it): hypotheses about IEEE-754 binary64, not proved of any concrete type. Lean's native Float (what the driver "
@@ -25,20 +33,28 @@ PROP = {
                   "results (every 97th day x 5 times + 86 400 seconds per quick run; every day x 5 times + 12 x 86 400 seconds per thorough run). "
                   "Non-vacuity: exact rationals (stdModel_rat) and rationals with every + - * / off by the factor 1+2^-53 (stdModel_qup) are StdModels. "
                   "chrono's calendar is represented by the reference calendar and chrono's strftime by Umya.Date.strftime (trusted, sampled). "
-                  "Which token lists are SimpleDateCodes is decided per list by running the model of the tables; no general characterisation is proved.",
+                  "Which token lists are SimpleDateCodes is decided per list by running the model of the tables, or by the sufficient syntactic criterion SimpleSyntax "
+                  "(C18_simple_syntax_sound); no complete characterisation is proved.",
     "expect_theorems": ["C18_date_fns_match_source", "C18_tables_match_source", "C18_days", "C18_days_1900", "C18_monotone", "C18_civil_roundtrip", "C18_civil_roundtrip_inv",
                         "C18_civil_valid", "C18_civil_monotone", "C18_convert", "C18_time_exact", "C18_time_exact_no_loss",
                         "C18_roundtrip_exact",
                         "C18_serial_float_error", "C18_monotone_float", "C18_time_float_near", "C18_time_float", "C18_time_float_1900",
                         "C18_convert_epoch_float", "C18_roundtrip_float",
                         "C18_date_display", "C18_date_display_unchecked", "C18_date_display_float", "C18_date_display_convert", "C18_date_display_notrim", "C18_date_display_iso",
-                        "C18_simple_codes"],
+                        "C18_simple_codes",
+                        "C18_date_display_ampm_partial", "C18_date_display_ampm_float_partial", "C18_date_display_ampm_convert_partial",
+                        "C18_date_display_ampm_notrim", "C18_simple_codes_names", "C18_ampm_case_fails",
+                        "C18_simple_syntax_sound", "C18_replace_split", "C18_date_display_syntax", "C18_date_display_syntax_ampm_partial"],
     "rule": "quick: every 97th day 1900-01-01..9999-12-31 x {00:00:00, 00:00:01, 11:59:59, 12:00:00, 23:59:59}; every second of one "
             "representative day (chosen by seed); 178 boundary years x 9 month/day corners x 5 times (year ends, Feb 28/29, Mar 1, all century years, "
             "1900-02-28/03-01); malformed arguments (year < 1000, > 9999, negative, i32 extremes; month/day/time out of range; i32 overflow "
             "boundaries); 40 000 arbitrary serials -> date-time (fractions off the second grid, +-1 ulp around integers, < 1, 59.x, 60.x, "
             "negative, NaN, inf); formatted display of a numeric cell for 22 date formats over every 776th day + all seconds/9 of one day + "
-            "19 formats outside the modelled fragment; each of the 18 SimpleDateCodes of C18_simple_codes (harness SIMPLE_CODES) over every 4656th day "
+            "19 formats outside the modelled fragment; 600 (thorough 4000) random members of the syntactic class SimpleSyntax (1..6 vocabulary words joined by "
+            "- , blank, a third of them with AM/PM and 12-hour tokens; generated and re-tokenised on the Rust side) x 3 random (day, second) each, compared with the "
+            "harness's own token-by-token text (counters syntax.code, syntax.lenNN, ampm.marker-lowercase / ampm.marker-capitals, ampm.witness-lowercase = the "
+            "witness of C18_ampm_case_fails); membership of each random code, of one mutated neighbour of it (a character replaced / removed / doubled) and of 65 fixed "
+            "codes in SimpleSyntax asked of both sides (c18 syn: harness tokeniser vs the Lean predicate; counters syn.member / syn.non-member); each of the 27 SimpleDateCodes of C18_simple_codes / C18_simple_codes_names (harness SIMPLE_CODES) over every 4656th day "
             "(offset by code and seed; thorough: every 776th) x rotating times, 4 boundary days x 3 times and every 997th (thorough: 13th) second of "
             "a representative day, compared with the harness's own token-by-token text (counters fmt.<code>, simple.<code>). thorough: every day x 5 times and every second of 12 days as batches of 10^4 / 8640 "
             "(rolling hash of bit patterns and read-back fields on both sides; the oracle is evaluated per item), plus the quick streams "
@@ -64,17 +80,24 @@ PROP = {
         "and the executed arithmetic is not proved (it is what IEEE-754 round-to-nearest guarantees, barring overflow)",
         "dates 1900-01-01 .. 9999-12-31, times 00:00:00 .. 23:59:59 (the serial 60 = fictitious 1900-02-29 is outside the domain)",
         "1900 date system only (convert_date = convert_date_windows_1900); the 1904 branch is modelled and compared but has no theorem",
-        "display: chrono's strftime = Umya.Date.strftime on the specifiers %Y %y %m %-m %d %-d %H %-H %M %S %b, and the regex stages of "
+        "display: chrono's strftime = Umya.Date.strftime on the specifiers %Y %y %m %-m %d %-d %H %-H %I %-I %M %S %b %B %a %A %P, and the regex stages of "
         "to_formatted_string / format_as_date are the identity on the SimpleDateCodes (both sampled by the fmt streams, not proved)",
+        "display: the harness's vocabulary / tokeniser of the syntactic class (harness/src/c18.rs vocab, syntax_tokens) mirrors Umya.Lemmas.DateSyntax.vocab / "
+        "simpleSyntax by hand; the two are compared on every run by the `c18 syn` requests (the Lean driver tokenises the code by vocabulary look-up and "
+        "evaluates simpleSyntax itself: every generated code, one mutated neighbour of each, all fixed codes), so a generated code outside the Lean class is a disagreement",
     ],
     "partial_clauses": [
         "C18_time_float / C18_monotone_float / C18_roundtrip_float: proved for every float instance satisfying StdModel (an assumption about "
         "IEEE-754, see assumptions), not for Lean's Float or Rust's f64 themselves; the three floor results are not claimed exact, only the "
         "recomposed second count is. At 1900-01-01T00:00:00 (serial exactly 1 = threshold of `excel_timestamp < 1`) the error bounds alone do not "
         "decide the base date: that instant needs ExactRepr",
-        "display: theorem only for SimpleDateCodes (18 codes shown members, incl. built-in ids 14 15 16 17 20 21 22 30 45); AM/PM codes (18, 19), "
-        "[h], .0, mmmm / mmmmm / ddd / dddd, quoted and bracketed codes have no theorem (model-vs-implementation comparison only); membership of a "
-        "token list in the class is decided by evaluating the modelled replacement tables, there is no proved syntactic criterion; the text is stated "
+        "display: theorem only for SimpleDateCodes (27 codes shown members, incl. built-in ids 14 15 16 17 18 19 20 21 22 30 45, plus every list that "
+        "satisfies SimpleSyntax); codes with the AM/PM marker: only the _partial theorems — the marker is shown am / pm where Excel shows AM / PM "
+        "(C18_ampm_case_fails; the crate's own tests pin the lower-case text, so no fix was made: proposed known finding C18-ampm-lowercase); "
+        "mmmmm (first letter of the month; the code maps it to %b = three letters), A/P, [h], .0, quoted and bracketed codes have no theorem "
+        "(model-vs-implementation comparison only); SimpleSyntax is sufficient, not necessary: words mixing : with / or ., fields glued without "
+        "separator, a repeated kind inside one /-word are outside it (decidable one by one with SimpleDateCode); the vocabulary words are validated "
+        "by kernel evaluation of the tables (finite, once), only the joining by - , blank is by induction; the text is stated "
         "with the trimming of blanks at both ends that to_formatted_string performs (C18_date_display_notrim: it is the identity for codes that "
         "neither start nor end with a blank)",
     ],
